@@ -63,7 +63,7 @@ var c05Fields = []c05Field{
 func init() {
 	oracles["C05"] = func(seed int64, n int, tier, work string) *oracleReport {
 		o := newOracleRun("C05", seed)
-		segs := []string{".", "..", "sub", "ref.yaml", "link-in", "link-out", "linkdir-out", "linkdir-deep", "root", "outside.yaml"}
+		segs := []string{".", "..", "sub", "ref.yaml", "link-in", "link-out", "linkdir-out", "linkdir-deep", "root", "outside.yaml", "Root"}
 		disk := work != ""
 		var diskRoot string
 		if disk {
@@ -80,6 +80,7 @@ func init() {
 				p = pickS(r, []string{"ref.yaml", "./sub/../ref.yaml", "sub/ref.yaml", "../outside.yaml", "sub/../../outside.yaml", "../root/../outside.yaml",
 					"../root/ref.yaml", "link-in", "link-out", "linkdir-out/outside.yaml", "../root-evil/ref.yaml", "ABS/outside.yaml", "ABS/root/ref.yaml",
 					// absolute and NOT clean: lexically inside the root, but the OS would walk through the link first
+					"../Root/ref.yaml", "../ROOT/ref.yaml", "ABS/Root/ref.yaml", "../Root/../root/../Root/ref.yaml",
 					"ABS/root/linkdir-deep/../ref.yaml", "ABS/root/sub/../linkdir-deep/../ref.yaml", "linkdir-deep/../ref.yaml", "ABS/root/./sub/../ref.yaml"})
 			default:
 				k := 1 + r.Intn(4)
@@ -111,6 +112,11 @@ func init() {
 			fs.WriteFile(filepath.Join(root, "sub", "ref.yaml"), []byte(f.content("inside-marker")))
 			fs.WriteFile(filepath.Join(base, "outside.yaml"), []byte(f.content(canary)))
 			fs.WriteFile(filepath.Join(base, "root-evil", "ref.yaml"), []byte(f.content(canary)))
+			// directories whose names differ from the root's by letter case only are other directories
+			for _, cv := range []string{"Root", "ROOT"} {
+				fs.MkdirAll(filepath.Join(base, cv))
+				fs.WriteFile(filepath.Join(base, cv, "ref.yaml"), []byte(f.content(canary)))
+			}
 			if onDisk {
 				os.Symlink(filepath.Join("sub", "ref.yaml"), filepath.Join(root, "link-in"))
 				os.Symlink(filepath.Join("..", "outside.yaml"), filepath.Join(root, "link-out"))
